@@ -17,8 +17,15 @@ def _call(arg):
         return ("err", f"{type(e).__name__}: {e}\n{traceback.format_exc()}")
 
 
-def pmap(fn, items, chunksize=1):
-    """Unordered parallel map; ``fn`` must be a module-level or closure function (fork)."""
+class Stalled(Exception):
+    """No worker delivered a result within the stall horizon."""
+
+
+def pmap(fn, items, chunksize=1, stall_timeout=None):
+    """Unordered parallel map; ``fn`` must be a module-level or closure function (fork).
+
+    With ``stall_timeout`` (seconds) the pool is torn down and `Stalled` raised if no task completes within
+    that time - library calls stuck in uninterruptible C code cannot be stopped from inside a worker."""
     global _FN
     _FN = fn
     items = list(items)
@@ -26,7 +33,15 @@ def pmap(fn, items, chunksize=1):
         return []
     out = []
     with mp.get_context("fork").Pool(min(NWORKERS, len(items))) as pool:
-        for status, val in pool.imap_unordered(_call, items, chunksize):
+        it = pool.imap_unordered(_call, items, chunksize)
+        while True:
+            try:
+                status, val = it.next(stall_timeout) if stall_timeout else next(it)
+            except StopIteration:
+                break
+            except mp.TimeoutError:
+                pool.terminate()
+                raise Stalled(f"no task finished within {stall_timeout} s ({len(out)} of {len(items)} done)") from None
             if status == "err":
                 raise RuntimeError("worker failed: " + val)
             out.append(val)
